@@ -251,6 +251,11 @@ pub fn scn_unsorted(out: &mut TraceOut, r: &mut R, idx: u64, heavy: bool) {
         return;
     }
     let p = r.gen_range(1..n);
+    if r.gen_ratio(1, 4) {
+        // the disturbed entry carries a value of at least one block (value-size dependent paths)
+        let len = cfg.block_size.max(1024) + r.gen_range(0..200);
+        entries[p].1 = value_for(p as u32 + 1, len);
+    }
     match idx % 8 {
         0 | 1 => {
             // duplicate of the predecessor
@@ -325,3 +330,4 @@ pub fn replay_wseq(out: &mut TraceOut, doc: &Value) -> (u64, u64) {
     }
     (blocks_compared, drift)
 }
+
